@@ -132,15 +132,17 @@ pub fn run_edge_cases(violations: &mut Vec<(String, Failure, Value)>) -> (u64, u
 pub enum Adv {
     /// two simple polygons whose vertices are points of a small integer lattice, sorted by angle around the centroid
     Lattice { a: Vec<(u8, u8)>, b: Vec<(u8, u8)>, n: u8 },
-    /// float stars squashed in x to a few thousand ulps around 1.0
-    Steep { desc: crate::gen::CaseDesc, squash: u8 },
+    /// float stars squashed in x to a few thousand ulps around 1.0 (`single`: coordinates rounded to f32 and the
+    /// operation run in f32)
+    Steep { desc: crate::gen::CaseDesc, squash: u8, single: bool },
 }
 
 pub fn adv_strategy() -> BoxedStrategy<Adv> {
     use proptest::collection::vec;
     let lat = (5u8..=8).prop_flat_map(|n| (vec((0..=n, 0..=n), 3..8), vec((0..=n, 0..=n), 3..8), Just(n))).prop_map(|(a, b, n)| Adv::Lattice { a, b, n });
-    let steep = (crate::gen::strat::case(crate::gen::strat::gen_shape(), false), 30u8..48).prop_map(|(desc, squash)| Adv::Steep { desc, squash });
-    prop_oneof![3 => lat, 1 => steep].boxed()
+    let steep = (crate::gen::strat::case(crate::gen::strat::gen_shape(), false), 30u8..48).prop_map(|(desc, squash)| Adv::Steep { desc, squash, single: false });
+    let steep32 = (crate::gen::strat::case(crate::gen::strat::gen_shape(), false), 6u8..18).prop_map(|(desc, squash)| Adv::Steep { desc, squash, single: true });
+    prop_oneof![6 => lat, 2 => steep, 2 => steep32].boxed()
 }
 
 fn lattice_poly(pts: &[(u8, u8)]) -> Option<MP> {
@@ -170,10 +172,11 @@ fn lattice_poly(pts: &[(u8, u8)]) -> Option<MP> {
 pub fn adv_operands(d: &Adv) -> Option<(MP, MP)> {
     match d {
         Adv::Lattice { a, b, .. } => Some((lattice_poly(a)?, lattice_poly(b)?)),
-        Adv::Steep { desc, squash } => {
+        Adv::Steep { desc, squash, single } => {
             let case = desc.expand(false).ok()?;
             let sq = (2.0f64).powi(-(*squash as i32));
-            let f = |p: P| pt(1.0 + p.x * sq, p.y);
+            let r = |v: f64| if *single { (v as f32) as f64 } else { v };
+            let f = |p: P| pt(r(1.0 + p.x * sq), r(p.y));
             let (a, b) = (map_mp(&case.a, &f), map_mp(&case.b, &f));
             if validate_operand(&a, &[]).is_err() || validate_operand(&b, &[]).is_err() {
                 return None;
@@ -214,6 +217,21 @@ pub fn signature(p: &PanicInfo) -> Signature {
             if spread <= 64 {
                 return Signature::K2;
             }
+            // a run in single precision walks in f32 ulps
+            if l.iter().all(|q| (q.0 as f32) as f64 == q.0) {
+                let k = |x: f64| {
+                    let b = (x as f32).to_bits() as i32;
+                    if b < 0 {
+                        i32::MIN - b
+                    } else {
+                        b
+                    }
+                };
+                let spread32 = l.iter().map(|q| (k(q.0) as i64 - k(l[0].0) as i64).unsigned_abs()).max().unwrap_or(u64::MAX);
+                if spread32 <= 64 {
+                    return Signature::K2;
+                }
+            }
         }
         return Signature::Other;
     }
@@ -229,6 +247,13 @@ pub fn signature(p: &PanicInfo) -> Signature {
     Signature::Other
 }
 
+pub fn adv_prec(d: &Adv) -> Prec {
+    match d {
+        Adv::Steep { single: true, .. } => Prec::F32,
+        _ => Prec::F64,
+    }
+}
+
 pub fn eval_adv(d: &Adv, want_sample: bool) -> Eval {
     let (a, b) = match adv_operands(d) {
         Some(x) => x,
@@ -237,8 +262,12 @@ pub fn eval_adv(d: &Adv, want_sample: bool) -> Eval {
     let mut obs = Obs::default();
     obs.nontrivial = !boxes_disjoint(&mp_edges(&a), &mp_edges(&b));
     let mut result = Ok(());
+    let prec = adv_prec(d);
+    if prec == Prec::F32 {
+        obs.class("adversarial-f32");
+    }
     for op in OPS {
-        if let Err(p) = run_op(Prec::F64, Pairing::MM, &a, &b, op) {
+        if let Err(p) = run_op(prec, Pairing::MM, &a, &b, op) {
             match signature(&p) {
                 Signature::K1 => {
                     obs.count("known_signature_hits_K1", 1);
@@ -247,6 +276,15 @@ pub fn eval_adv(d: &Adv, want_sample: bool) -> Eval {
                 Signature::K2 => {
                     obs.count("known_signature_hits_K2", 1);
                     obs.class("K2-signature");
+                }
+                // the two recorded debug assertions exist only in builds with debug assertions
+                Signature::K3 if cfg!(debug_assertions) => {
+                    obs.count("known_signature_hits_K3", 1);
+                    obs.class("K3-signature");
+                }
+                Signature::K4 if cfg!(debug_assertions) => {
+                    obs.count("known_signature_hits_K4", 1);
+                    obs.class("K4-signature");
                 }
                 other => {
                     result = Err(Failure::new(
